@@ -57,7 +57,11 @@ type c18Env struct {
 func newC18Env() *c18Env {
 	dir, _ := ck.Scratch("c18d")
 	pdir, _ := ck.Scratch("c18p")
-	cmd := exec.Command(os.Args[0], "-prop", "C18SERVE")
+	exe, err := os.Executable()
+	if err != nil {
+		exe = os.Args[0]
+	}
+	cmd := exec.Command(exe, "-prop", "C18SERVE")
 	cmd.Env = append(os.Environ(), "VERIF_C18_DIR="+dir, "VERIF_SHARD=", "VERIF_PARTIAL=")
 	in, _ := cmd.StdinPipe()
 	out, _ := cmd.StdoutPipe()
